@@ -932,6 +932,25 @@ def pure_clauses(max_n=40, max_cols=8):
                             prob = "empty cells asked for before the data cells"
                         elif [a for a, _ in pairs] != items or [b for _, b in pairs] != items:
                             prob = "two passes over the same grid at once"
+                        else:
+                            # two enumerations of *different* kinds alive at once: the other
+                            # orientation, the empty cells - zipped, and one nested in the other
+                            other = list(DataPlotGrid(data, ncols=ncols).items(transpose=not transpose))
+                            mixed = list(zip(g2.items(transpose=transpose),
+                                             g2.items(transpose=not transpose)))
+                            outer = []
+                            inner_ok = True
+                            for it in g2.items(transpose=transpose):
+                                outer.append(it)
+                                if len(outer) <= 3:
+                                    inner_ok = inner_ok and \
+                                        list(g2.items(transpose=not transpose)) == other and \
+                                        list(g2.items(missing=True, transpose=transpose)) == missing
+                            if [a for a, _ in mixed] != items[:len(mixed)] or \
+                                    [b for _, b in mixed] != other[:len(mixed)] or len(mixed) != n:
+                                prob = "both orientations enumerated at once"
+                            elif outer != items or not inner_ok:
+                                prob = "an enumeration nested inside another one of the same grid"
                     if prob:
                         return cases, {"what": "grid: " + prob, "n": n, "ncols": ncols,
                                        "dict": as_dict, "transpose": transpose,
@@ -957,6 +976,16 @@ def pure_clauses(max_n=40, max_cols=8):
         pairs = list(zip(dc.items(), dc.items()))
         dc2 = DataCombination(items)
         both3, keys3 = list(dc2.items()), list(dc2.keys())
+        # all pairs of combinations: an enumeration nested inside another one of the same object
+        outer, inner_ok = [], True
+        for a in dc.items():
+            outer.append(a)
+            if len(outer) <= 4:
+                inner_ok = inner_ok and list(dc.items()) == both and list(dc.keys()) == wantk \
+                    and list(dc.values()) == wantv
+        if outer != both or not inner_ok:
+            return cases, {"what": "combination: an enumeration nested inside another one of the "
+                                   "same object", "shape": list(shape), "outer": outer[:20]}
         if keys2 != wantk or vals2 != wantv or both2 != both or both3 != both or keys3 != wantk \
                 or [a for a, _ in pairs] != both or [b for _, b in pairs] != both:
             return cases, {"what": "combination: a repeated or reordered query differs from the "
